@@ -79,6 +79,12 @@ T = [
 
 NAMESPACE_NAMES = ["fields", "str", "repr", "any", "all", "r", "Type", "lower", "upper", "name", "names", "get_type", "has_field", "field_contains",
                    "field_equals", "field_regex", "None", "True", "False", "rec", "self", "obj"]
+# spellings the parser normalises (NFKC) to a dunder / a builtin name although the text holds no two adjacent ASCII underscores,
+# and names that contain the text of a message the evaluator treats specially
+T += ["r.c.\uff3f\uff3fclass\uff3f\uff3f", "r.c._\uff3fclass_\uff3f", "r.c.\uff3f_dict_\uff3f", "r.\uff3f\uff3fclass\uff3f\uff3f.x", "r.c._\uff3fclass_\uff3f._\uff3fdict_\uff3f",
+      "\uff4f\uff50\uff45\uff4e('/dev/shm/c09-pwned', 'w')", "r.c.\uff46ire()", "\uff47etattr(r, 's')", "lower._\uff3fglobals_\uff3f", "r.c.fi\u00adre()",
+      "NoneType()", "NoneType(1)", "r.c.NoneType(1)", "r.c.NoneType", "r.c.NoneType.fire()", "r.c.fire('NoneType')", "r.c.__class__ == 'NoneType'",
+      "r.c.__dict__ == get_type(None)", "unknown_NoneType_name(1)", "str(r.c.fire()) == \"<class 'NoneType'>\""]
 for _nm in NAMESPACE_NAMES:
     T += ["any(%s('string') for %s in [r.c.fire])" % (_nm, _nm), "any(%s.fire() for %s in [r.c])" % (_nm, _nm),
           "any(any(%s() for _j in [1]) for %s in (r.c.fire,))" % (_nm, _nm)]
@@ -87,7 +93,8 @@ CONTEXTS = {
     "bare": "%s", "cmp-l": "%s == 1", "cmp-r": "1 == %s", "and": "%s and True", "or": "%s or False", "not": "not %s", "binop": "%s + 1",
     "list": "[%s, 1] == 2", "tuple": "(%s,) == 2", "arg": "lower(%s)", "kwarg": "field_contains(r, ['s'], strings=%s)", "str": "str(%s)",
     "gen-elt": "any(%s for _i in [1])", "gen-iter": "any(1 for _i in %s)", "attr-base": "(%s).foo", "in": "'a' in %s", "chain": "1 < %s < 3",
-    "call-arg2": "field_equals(r, ['s'], [%s])",
+    "call-arg2": "field_equals(r, ['s'], [%s])", "and-r": "r.s == 'zz' and %s", "and-true": "r.s == 'abc' and %s", "or-l": "%s or True", "or-r": "r.s == 'zz' or %s",
+    "or-nonetype": "%s or get_type(None) == \"<class 'NoneType'>\"", "and-none": "r.none and %s", "or-none": "r.none or %s",
 }
 
 ALLOWED_CALLS = {"lower", "upper", "name", "names", "get_type", "has_field", "field_contains", "field_equals", "field_regex", "str", "repr",
@@ -309,7 +316,7 @@ def run_case(case):
             "count": {"refused_programs": 1 if label == "refused" else 0, "allowed_programs": 1 if label == "allowed" else 0}}
 
 
-SHORT_CIRCUIT_OK = set()
+SHORT_CIRCUIT_OK = {"and-r", "and-none", "and-true"}  # the left operand already decides: an engine may (like Python) never reach the target
 
 
 def t_class(t):
